@@ -1,4 +1,257 @@
-import CentrifugeVerif.Model.RecoveryHub
+import CentrifugeVerif.Proofs.RecoveryCache
+/-!
+# C03 — cache recovery delivers the newest visible publication
+
+Property theorems over `Model/Recovery.lean` (`cacheSubscribe` = the cache-mode recovery branch of
+`subscribeCmd` — client `Recover` or server-forced `AutoCacheRecover` — over `Node.recoverCache` /
+`isCacheRecovered` / the cache-empty handler retry / `MergePublications` / the cache-mode trimming).
+They hold for every stream state satisfying `RStream.Inv`, every client position (offset, epoch),
+every filter pair (`Filt.WF`: "no filter" passes everything), every `RecoveryMaxPublicationLimit`.
+
+Reading of "recovered = true exactly when the channel's newest publication is present in history or
+the client already holds the current position": *newest publication visible to the subscription*,
+searched in the part of history that recovery scans (`scanWindow`).  Without filters that is literally
+the statement (`cache_recovered_iff_nofilter`).  With filters excluding every scanned publication the
+code reports `recovered = clientHasSameState` although the channel's newest publication is in history
+(`cache_literal_reading_counterexample`); this is the safe answer — the server cannot know whether an
+older visible publication was already trimmed, and `recovered = true` with nothing delivered would tell
+a client that is not at the current position that it is up to date — so it is not treated as a defect.
+-/
 namespace CentrifugeVerif.Recovery
-theorem c03_placeholder : True := trivial
+open CentrifugeVerif.Merge
+
+/-- **cache_recovered_iff** (one `recoverCache` + `isCacheRecovered` round).  `recovered = true` ⇔ a
+publication passing both filters is found in the scanned part of history, or the client already is at
+`(top, epoch)` with a non-zero offset. -/
+theorem cache_recovered_iff (limit : Nat) (s : RStream) (hi : s.Inv) (f : Filt) (hw : f.WF) (off ep : Nat) :
+    (cacheDecide limit s f off ep).2 = true ↔
+      (∃ p ∈ scanWindow limit s f, f.pass p = true) ∨ sameState s off ep = true := by
+  rw [cacheDecide_spec limit s hi f hw]
+  cases hf : (scanWindow limit s f).find? f.pass with
+  | none =>
+    simp only
+    constructor
+    · intro h; exact Or.inr h
+    · rintro (⟨p, hp, hpp⟩ | h)
+      · have := List.find?_eq_none.mp hf p hp
+        rw [hpp] at this; simp at this
+      · exact h
+  | some p =>
+    simp only [true_iff]
+    exact Or.inl ⟨p, (find_newest limit s hi f p hf).1, (find_newest limit s hi f p hf).2.1⟩
+
+/-- Without any filter: `recovered = true` ⇔ the channel's newest publication (offset = top) is
+present in history, or the client already holds the current position — the statement, literally. -/
+theorem cache_recovered_iff_nofilter (limit : Nat) (s : RStream) (hi : s.Inv) (f : Filt) (hw : f.WF)
+    (hn : f.has = false) (off ep : Nat) :
+    (cacheDecide limit s f off ep).2 = true ↔
+      (∃ p ∈ s.items, p.offset = s.top) ∨ sameState s off ep = true := by
+  rw [cache_recovered_iff limit s hi f hw]
+  have hwin : scanWindow limit s f = s.items.reverse.take 1 := by simp [scanWindow, hn]
+  constructor
+  · rintro (⟨p, hp, _⟩ | h)
+    · left
+      rw [hwin] at hp
+      cases hr : s.items.reverse with
+      | nil => rw [hr] at hp; simp at hp
+      | cons x xs =>
+        rw [hr] at hp
+        simp only [List.take_succ_cons, List.take_zero, List.mem_singleton] at hp
+        subst hp
+        have hh : (scanWindow limit s f).head? = some p := by rw [hwin, hr]; rfl
+        exact ⟨p, mem_scanWindow (by rw [hwin, hr]; simp), head_scanWindow_top limit s hi f p hh⟩
+    · exact Or.inr h
+  · rintro (⟨p, hp, _⟩ | h)
+    · left
+      cases hr : s.items.reverse with
+      | nil =>
+        have : s.items = [] := by simpa using hr
+        rw [this] at hp; cases hp
+      | cons x xs => exact ⟨x, by rw [hwin, hr]; simp, hw hn x⟩
+    · exact Or.inr h
+
+/-- With filters but no publication limit the scan covers all retained publications. -/
+theorem cache_recovered_iff_nolimit (s : RStream) (hi : s.Inv) (f : Filt) (hw : f.WF) (hf : f.has = true)
+    (off ep : Nat) :
+    (cacheDecide 0 s f off ep).2 = true ↔ (∃ p ∈ s.items, f.pass p = true) ∨ sameState s off ep = true := by
+  rw [cache_recovered_iff 0 s hi f hw]
+  have hwin : scanWindow 0 s f = s.items.reverse := by simp [scanWindow, hf, takeLim]
+  rw [hwin]
+  simp only [List.mem_reverse]
+
+/-- **cache_at_most_one.**  One round delivers at most one publication, and it is the maximum-offset
+retained publication passing both filters; it is also the newest such publication ever published in
+the epoch (`cache_never_stale`). -/
+theorem cache_at_most_one (limit : Nat) (s : RStream) (hi : s.Inv) (f : Filt) (hw : f.WF) (off ep : Nat) :
+    (cacheDecide limit s f off ep).1.length ≤ 1 ∧
+    ∀ p ∈ (cacheDecide limit s f off ep).1,
+      p ∈ s.items ∧ f.pass p = true ∧ ∀ q ∈ s.items, f.pass q = true → q.offset ≤ p.offset := by
+  rw [cacheDecide_spec limit s hi f hw]
+  cases hf : (scanWindow limit s f).find? f.pass with
+  | none => simp
+  | some p =>
+    have hn := find_newest limit s hi f p hf
+    cases sameState s off ep
+    · simp only [Bool.false_eq_true, if_false, List.length_cons, List.length_nil, Nat.le_refl, List.mem_singleton,
+        forall_eq, true_and]
+      exact ⟨mem_scanWindow hn.1, hn.2.1, hn.2.2⟩
+    · simp
+
+/-- **cache_never_stale.**  A delivered publication is never older than some other publication of the
+epoch that passes the filters — retained or not. -/
+theorem cache_never_stale (limit : Nat) (s : RStream) (hi : s.Inv) (f : Filt) (hw : f.WF) (off ep : Nat) :
+    ∀ p ∈ (cacheDecide limit s f off ep).1, ∀ q ∈ s.log, f.pass q = true → q.offset ≤ p.offset := by
+  intro p hp q hq hpass
+  obtain ⟨hpi, _, hmax⟩ := (cache_at_most_one limit s hi f hw off ep).2 p hp
+  rcases log_older s hi q hq with h | h
+  · exact hmax q h hpass
+  · exact Nat.le_of_lt (h p hpi)
+
+/-- nothing is delivered to a client that already holds the current position, and nothing is
+delivered when `recovered = false` -/
+theorem cache_same_or_false_empty (limit : Nat) (s : RStream) (hi : s.Inv) (f : Filt) (hw : f.WF) (off ep : Nat)
+    (h : sameState s off ep = true ∨ (cacheDecide limit s f off ep).2 = false) :
+    (cacheDecide limit s f off ep).1 = [] := by
+  rw [cacheDecide_spec limit s hi f hw] at h ⊢
+  cases hf : (scanWindow limit s f).find? f.pass with
+  | none => rfl
+  | some p =>
+    rw [hf] at h
+    rcases h with h | h
+    · simp [h]
+    · simp at h
+
+/-- a client that is told `recovered = true` without holding the current position does receive the
+newest visible publication -/
+theorem cache_recovered_delivers (limit : Nat) (s : RStream) (hi : s.Inv) (f : Filt) (hw : f.WF) (off ep : Nat)
+    (hr : (cacheDecide limit s f off ep).2 = true) (hs : sameState s off ep = false) :
+    ∃ p, (cacheDecide limit s f off ep).1 = [p] := by
+  rw [cacheDecide_spec limit s hi f hw] at hr ⊢
+  cases hf : (scanWindow limit s f).find? f.pass with
+  | none => rw [hf] at hr; simp [hs] at hr
+  | some p => exact ⟨p, by simp [hs]⟩
+
+/-- **cache_reply.**  The whole subscribe reply when the cache-empty handler is not invoked (none
+registered, or something visible was found at once): `Recovered`, the publications (none unless
+recovered), `Offset` (the requested one when recovered), `Epoch`, position = top; with or without
+delta, client `Recover` or server-forced `AutoCacheRecover` alike (both run this branch). -/
+theorem cache_reply (limit : Nat) (s1 s2 : RStream) (hi : s1.Inv) (f : Filt) (hw : f.WF) (req : Req)
+    (delta : Bool) (h : HandlerReply) (buffered : List MPub)
+    (hni : h = none ∨ recoverCache limit s1 f ≠ none) :
+    cacheSubscribe limit s1 s2 f req delta h buffered =
+      .reply (cacheDecide limit s1 f req.offset req.epoch).2
+        (if (cacheDecide limit s1 f req.offset req.epoch).2 then
+          (cacheDecide limit s1 f req.offset req.epoch).1.map toPlain else [])
+        (if (cacheDecide limit s1 f req.offset req.epoch).2 then req.offset else s1.top) s1.epoch s1.top true :=
+  cacheSubscribe_spec limit s1 s2 hi f hw req delta h buffered hni
+
+/-- **cache_two_step.**  The populate-then-retry path as a two-step function of the handler's reply:
+the handler is consulted only when the first round found nothing (`recoverCache = (nil, nil)`); an
+error aborts; `Populated` leads to exactly one more round on the new stream state — but only when the
+first round did not already report `recovered`; the reply is then assembled from the decisive round
+and whatever was buffered meanwhile. -/
+theorem cache_two_step (limit : Nat) (s1 s2 : RStream) (f : Filt) (req : Req) (delta : Bool)
+    (hr : Option Bool) (buffered : List MPub) (h1 : recoverCache limit s1 f = none) :
+    cacheSubscribe limit s1 s2 f req delta (some hr) buffered =
+      match hr with
+      | none => .handlerError
+      | some populated =>
+        let d1 := cacheDecide limit s1 f req.offset req.epoch
+        if populated && !d1.2 then
+          let d2 := cacheDecide limit s2 f req.offset req.epoch
+          finish true delta d2.2 (d2.1.map toPlain) buffered s2.top s2.epoch req.offset true
+        else finish true delta d1.2 (d1.1.map toPlain) buffered s1.top s1.epoch req.offset true := by
+  unfold cacheSubscribe cacheDecide
+  rw [h1]
+  cases hr <;> rfl
+
+/-- whatever the handler does, nothing is delivered with `recovered = false` -/
+theorem cache_false_empty (limit : Nat) (s1 s2 : RStream) (f : Filt) (req : Req) (delta : Bool)
+    (h : HandlerReply) (buffered : List MPub)
+    (hr : (cacheSubscribe limit s1 s2 f req delta h buffered).recovered = false) :
+    (cacheSubscribe limit s1 s2 f req delta h buffered).pubs = [] := by
+  have hc : cacheSubscribe limit s1 s2 f req delta h buffered = .handlerError ∨
+      ∃ r rp b t e, cacheSubscribe limit s1 s2 f req delta h buffered = finish true delta r rp b t e req.offset true := by
+    unfold cacheSubscribe
+    simp only
+    cases recoverCache limit s1 f <;> cases h with
+    | none => exact Or.inr ⟨_, _, _, _, _, rfl⟩
+    | some x =>
+      cases x with
+      | none => first | exact Or.inl rfl | exact Or.inr ⟨_, _, _, _, _, rfl⟩
+      | some pop =>
+        first
+        | exact Or.inr ⟨_, _, _, _, _, rfl⟩
+        | (simp only; split <;> exact Or.inr ⟨_, _, _, _, _, rfl⟩)
+  rcases hc with hc | ⟨r, rp, b, t, e, hc⟩
+  · rw [hc]; rfl
+  · rw [hc] at hr ⊢
+    exact finish_false_empty _ _ _ _ _ _ _ _ _ hr
+
+/-- without delta the reply never carries more than one publication (the `len > 1 ∧ delta = ""`
+trimming), whatever was buffered and whatever the handler did -/
+theorem cache_reply_at_most_one (limit : Nat) (s1 s2 : RStream) (f : Filt) (req : Req)
+    (h : HandlerReply) (buffered : List MPub) :
+    (cacheSubscribe limit s1 s2 f req false h buffered).pubs.length ≤ 1 := by
+  have key : ∀ r rp b t e, (finish true false r rp b t e req.offset true).pubs.length ≤ 1 := by
+    intro r rp b t e
+    unfold finish
+    split
+    · simp [Outcome.pubs]
+    · rename_i l mx _
+      simp only [Outcome.pubs, Bool.true_and, Bool.not_false, Bool.and_true]
+      cases r
+      · simp
+      · simp only [if_true]
+        split
+        · rename_i hl; simp only [decide_eq_true_eq] at hl; simp; omega
+        · rename_i hl; simp only [decide_eq_true_eq] at hl; omega
+  unfold cacheSubscribe
+  simp only
+  cases recoverCache limit s1 f <;> cases h with
+  | none => exact key _ _ _ _ _
+  | some x =>
+    cases x with
+    | none => first | exact key _ _ _ _ _ | simp [Outcome.pubs]
+    | some pop =>
+      first
+      | exact key _ _ _ _ _
+      | (simp only; split <;> exact key _ _ _ _ _)
+
+/-! ### Non-vacuity and the literal-reading witness -/
+
+/-- three publications with tags 1, 2, 2 retained, top 3, epoch 7 -/
+def exC : RStream := (((RStream.new 7).add 1 1 5).add 2 2 5).add 2 3 5
+
+example : exC.Inv := by
+  unfold exC
+  have b : ∀ n : Nat, n ≤ 10 → n + 2 < U64 := by intro n hn; unfold U64; omega
+  exact inv_add (inv_add (inv_add (inv_new 7 (by decide)) (b _ (by decide)) 1 1 5) (b _ (by decide)) 2 2 5)
+    (b _ (by decide)) 2 3 5
+
+def fEq (v : Nat) : Filt := ⟨true, fun p => p.tag == v⟩
+def fNone : Filt := ⟨false, fun _ => true⟩
+example : (fEq 1).WF := by intro h; cases h
+example : fNone.WF := by intro _ _; rfl
+
+-- no filter: newest publication delivered
+example : cacheSubscribe 0 exC exC fNone ⟨0, 0, false⟩ false none [] = .reply true [⟨3, false, 3⟩] 0 7 3 true := by decide
+-- filter tag = 1: the newest *visible* publication (offset 1) is delivered, recovered = true
+example : cacheSubscribe 0 exC exC (fEq 1) ⟨0, 0, false⟩ false none [] = .reply true [⟨1, false, 1⟩] 0 7 3 true := by decide
+-- … but a limit of 2 cuts the scan before it: nothing visible found
+example : cacheSubscribe 2 exC exC (fEq 1) ⟨0, 0, false⟩ false none [] = .reply false [] 3 7 3 true := by decide
+-- client already at (3, 7): recovered, nothing delivered
+example : cacheSubscribe 0 exC exC fNone ⟨3, 7, false⟩ false none [] = .reply true [] 3 7 3 true := by decide
+-- populate-then-retry: empty cache, handler publishes offset 4 (tag 1) which is also buffered
+example : cacheSubscribe 0 exC.clear (exC.clear.add 1 4 5) (fEq 1) ⟨0, 0, false⟩ false (some (some true))
+    [⟨4, false, 4⟩] = .reply true [⟨4, false, 4⟩] 0 7 4 true := by decide
+
+/-- **Literal reading fails.**  Filter `tag = 3` excludes every retained publication: the channel's
+newest publication (offset 3 = top) *is* present in history and the client is not at the current
+position, yet the code reports `recovered = false` (see the module comment for why this is the
+intended, safe behaviour and `cache_recovered_iff` is the right statement). -/
+theorem cache_literal_reading_counterexample :
+    (∃ p ∈ exC.items, p.offset = exC.top) ∧ sameState exC 1 7 = false ∧
+    (cacheDecide 0 exC (fEq 3) 1 7).2 = false := by decide
+
 end CentrifugeVerif.Recovery
